@@ -11,13 +11,18 @@ import (
 	"os"
 	"path/filepath"
 	"sort"
+	"time"
 
 	"go4.org/jsonconfig"
 
+	"filippo.io/age"
 	"perkeep.org/pkg/blob"
 	"perkeep.org/pkg/blobserver"
+
+	_ "perkeep.org/pkg/blobserver/blobpacked"
 	_ "perkeep.org/pkg/blobserver/cond"
 	_ "perkeep.org/pkg/blobserver/diskpacked"
+	_ "perkeep.org/pkg/blobserver/encrypt"
 	_ "perkeep.org/pkg/blobserver/localdisk"
 	"perkeep.org/pkg/blobserver/memory"
 	_ "perkeep.org/pkg/blobserver/namespace"
@@ -117,10 +122,10 @@ func (l *Loader) FindHandlerByType(string) (string, any, error) {
 	return "", nil, blobserver.ErrHandlerTypeNotFound
 }
 func (l *Loader) AllHandlers() (map[string]string, map[string]any) { return nil, nil }
-func (l *Loader) MyPrefix() string                                  { return "/verif/" }
-func (l *Loader) BaseURL() string                                   { return "http://localhost" }
-func (l *Loader) GetHandlerType(string) string                      { return "" }
-func (l *Loader) GetHandler(p string) (any, error)                  { return l.GetStorage(p) }
+func (l *Loader) MyPrefix() string                                 { return "/verif/" }
+func (l *Loader) BaseURL() string                                  { return "http://localhost" }
+func (l *Loader) GetHandlerType(string) string                     { return "" }
+func (l *Loader) GetHandler(p string) (any, error)                 { return l.GetStorage(p) }
 func (l *Loader) GetStorage(p string) (blobserver.Storage, error) {
 	if s, ok := l.sto[p]; ok {
 		return s, nil
@@ -154,6 +159,9 @@ func NewEnv() (*Env, error) {
 }
 
 func (e *Env) Close() {
+	// mergedEnumerate returns without waiting for its per-source goroutines (they stop on the cancelled
+	// context a moment later); closing a diskpacked index under one of them crashes goleveldb.
+	time.Sleep(5 * time.Millisecond)
 	for _, c := range e.closers {
 		c.Close()
 	}
@@ -237,6 +245,27 @@ func (e *Env) Build(n *Node, wrap WrapFunc) (blobserver.Storage, error) {
 		return mk("replica", conf)
 	case "union":
 		return mk("union", map[string]any{"subsets": toAny(kids)})
+	case "encrypt":
+		// an age identity generated for this tree; blobs and meta in memory stores
+		id, err := age.GenerateX25519Identity()
+		if err != nil {
+			return nil, err
+		}
+		kf := filepath.Join(e.subdir(), "key")
+		if err := os.WriteFile(kf, []byte(id.String()+"\n"), 0o600); err != nil {
+			return nil, err
+		}
+		bp := e.Loader.Add(&memory.Storage{})
+		mp := e.Loader.Add(&memory.Storage{})
+		s, err := mk("encrypt", map[string]any{
+			"I_AGREE": "that encryption support hasn't been peer-reviewed, isn't finished, and its format might change.",
+			"keyFile": kf, "blobs": bp, "meta": mp, "metaIndex": memKV})
+		return leaf(s, "", err)
+	case "blobpacked":
+		sp := e.Loader.Add(&memory.Storage{})
+		lp := e.Loader.Add(&memory.Storage{})
+		s, err := mk("blobpacked", map[string]any{"smallBlobs": sp, "largeBlobs": lp, "metaIndex": memKV})
+		return leaf(s, "", err)
 	case "cond":
 		rd, err := mk("replica", map[string]any{"backends": toAny(kids)})
 		if err != nil {
